@@ -54,9 +54,9 @@ FREQS = ["YEARLY", "MONTHLY", "WEEKLY", "DAILY", "HOURLY", "MINUTELY", "SECONDLY
 WD = ["MO", "TU", "WE", "TH", "FR", "SA", "SU"]
 ZONES = [-43200, -28800, -18000, -12600, 3600, 19800, 20700, 32400, 43200, 50400]
 UTC = timezone.utc
-QUIRKS = {  # oracle code -> finding id
-    "special_zone": "K15a", "until_zone": "K15b", "until_time": "K15c", "for_each_dt": "K15d",
-    "naive_special": "K15e",
+QUIRKS = {  # oracle code -> finding id.  (K15a, K15b, K15c, K15e are repaired in /repo: the reference
+    # below states the intended behaviour only, their witnesses in corpus/C15 are regression cases.)
+    "for_each_dt": "K15d",
 }
 
 
@@ -316,7 +316,7 @@ def gen_event_kw(rng, depth, mode, start_like=None, sane_lists=True):
             if freq_i >= 4 and uform in ("date", "datestr") and rng.random() < 0.8:
                 uform = "dtstr"
             if freq_i >= 5:
-                uform = "dtstr_utc"     # (a zone or time-of-day defect would turn seconds into hours of rows)
+                uform = "dtstr_utc"     # (a zone or time-of-day mistake would turn seconds into hours of rows)
             if uform == "date":
                 kw.append(["until", lit_date(u.date())])
             elif uform == "datestr":
@@ -1205,17 +1205,15 @@ def ref_build(kw, quirks, now, memo):
                 add_rule(nested[id(leaf)])
             elif t == "dt":
                 d = to_py_dt(leaf["v"])
-                if d.tzinfo is None and "naive_special" not in quirks:
-                    d = d.replace(tzinfo=UTC)      # a naive value means UTC everywhere else in Snowfakery
-                add_date(d)                        # (defect K15e: the naive value reaches the engine as it is)
+                if d.tzinfo is None:
+                    d = d.replace(tzinfo=UTC)      # a naive value means UTC everywhere in Snowfakery
+                add_date(d)
             elif t == "date" or (t == "str" and _is_date_only(leaf["v"])):
                 d = to_py_date(leaf["v"]) if t == "date" else date.fromisoformat(leaf["v"])
-                tz = UTC if "special_zone" in quirks else start.tzinfo
-                add_date(datetime.combine(d, start.time().replace(tzinfo=None), tzinfo=tz))
+                add_date(datetime.combine(d, start.time().replace(tzinfo=None), tzinfo=start.tzinfo))
             elif t == "str":
                 d = _ref_parse(leaf["v"]).date()    # documented: "simple dates"; a time in the string is not used
-                tz = UTC if "special_zone" in quirks else start.tzinfo
-                add_date(datetime.combine(d, start.time().replace(tzinfo=None), tzinfo=tz))
+                add_date(datetime.combine(d, start.time().replace(tzinfo=None), tzinfo=start.tzinfo))
             else:
                 raise Reject("bad include/exclude value")
     return rs, prec, start
@@ -1252,24 +1250,18 @@ def _prebuild(e, quirks, now, memo, nested):
 
 
 def _ref_until(un, start, quirks):
+    """a date: that day at the start's wall time in the start's zone; a datetime: the instant it denotes"""
     t = un["t"]
     st = start.time().replace(tzinfo=None)
-    zone_q = "until_zone" in quirks
     if t == "date" or (t == "str" and _is_date_only(un["v"])):
         d = to_py_date(un["v"]) if t == "date" else date.fromisoformat(un["v"])
-        return datetime.combine(d, st, tzinfo=UTC if zone_q else start.tzinfo)
+        return datetime.combine(d, st, tzinfo=start.tzinfo)
     if t == "str":
         u = _ref_parse(un["v"])
-        if u.tzinfo is None:
-            u = u.replace(tzinfo=UTC)
-        return u.replace(tzinfo=UTC) if zone_q else u
+        return u if u.tzinfo is not None else u.replace(tzinfo=UTC)
     if t == "dt":
         u = to_py_dt(un["v"])
-        if "until_time" in quirks:
-            return datetime.combine(u.date(), st, tzinfo=UTC if zone_q else start.tzinfo)
-        if u.tzinfo is None:
-            u = u.replace(tzinfo=UTC)
-        return u.replace(tzinfo=UTC) if zone_q else u
+        return u if u.tzinfo is not None else u.replace(tzinfo=UTC)
     raise Reject("bad until")
 
 
@@ -1307,25 +1299,7 @@ def reference(case, quirks, now):
 
 
 def applicable_quirks(case):
-    q = set()
-    for kw in walk_events(case["kw"]):
-        un = kwget(kw, "until")
-        if un is not None and not _ref_falsy(un):
-            q.add("until_zone")
-            if un["t"] == "dt":
-                q.add("until_time")
-        for key in ("include", "exclude"):
-            v = kwget(kw, key)
-            if v is None:
-                continue
-            for leaf in _flatten(v):
-                if leaf["t"] in ("date", "str"):
-                    q.add("special_zone")
-                if leaf["t"] == "dt" and leaf["v"][7] is None:
-                    q.add("naive_special")
-    if case["mode"] == "for_each":
-        q.add("for_each_dt")
-    return sorted(q)
+    return ["for_each_dt"] if case["mode"] == "for_each" else []
 
 
 def reference_all(case, now):
@@ -1588,8 +1562,9 @@ def oracle(case, obs):
         return None
     for key, ref in refs.items():
         if key and _agrees(ref, obs):
-            return (f"quirk[{key}]: output equals the recurrence only under the known zone/until/for_each "
-                    f"defects {key}; expected {_show(base)} got {_show(_outcome(obs))}")
+            return (f"quirk[{key}]: output equals the recurrence only under the known defect {key} "
+                    f"(for_each yields datetimes for a date-precision start); expected {_show(base)} "
+                    f"got {_show(_outcome(obs))}")
     return (f"mismatch: Schedule.Event output differs from the independently built recurrence: expected {_show(base)} "
             f"got {_show(_outcome(obs))} (engine_err={obs.get('engine_err')}, msg={obs.get('msg')})")
 
